@@ -226,6 +226,44 @@ Proof.
     intros _; first [exists 0%nat; reflexivity | exists 1%nat; reflexivity | exists 2%nat; reflexivity].
 Qed.
 
+(* ---------------------------------------------------------------- string-table elements: who owns the buffer (D22, D23) *)
+Definition selt_blocks (e : selt) : list N := se_blk e :: (if se_stat e then [] else buf_blocks (se_string e)).
+(* the encoder's string table: list structure = block 1, empty *)
+Definition a_table : wlist selt := mkList 1 [].
+Definition heap_tbl (o : list bool) : heap := heap_with o [1] 2.
+
+(* D23, old code: (a) the append is refused -> the name buffer is freed twice; (b) on a reset encoder (NULL list, defect D14)
+   the same happens WITHOUT any allocation failure *)
+Lemma encode_literal_refuted :
+  (exists k, h_bad (fst (fst (encode_literal true (heap_tbl (single k)) (Some a_table) false))) <> []) /\
+  h_bad (fst (fst (encode_literal true (heap_tbl nofail) None false))) <> [].
+Proof. split; [exists 3%nat|]; vm_compute; discriminate. Qed.
+(* repaired: every oracle, string new or already in the table, list present or NULL *)
+Lemma encode_literal_fixed_ok : forall (fails : list bool) (already tbl_present : bool),
+  let tbl := (if tbl_present then Some a_table else None) : option (wlist selt) in
+  let '(h, tbl', st) := encode_literal false (heap_tbl fails) tbl already in
+  clean h /\ all_live h [1] = true /\
+  match st with
+  | ERR => leaked h [1] = [] /\ tbl' = tbl
+  | OK => match tbl' with Some l => leaked h (list_blocks selt_blocks l) = [] | None => False end
+  end.
+Proof. intros fails [|] [|]; oracle fails 4%nat. Qed.
+
+(* D22, old code: the public-id string is already in the table (no allocation fails at all) -> `pid` freed twice *)
+Lemma fill_header_pid_refuted :
+  h_bad (fst (fst (fill_header_pid true (heap_tbl nofail) (Some a_table) true))) <> [] /\
+  (exists k, h_bad (fst (fst (fill_header_pid true (heap_tbl (single k)) (Some a_table) false))) <> []).
+Proof. split; [|exists 3%nat]; vm_compute; discriminate. Qed.
+Lemma fill_header_pid_fixed_ok : forall (fails : list bool) (already tbl_present : bool),
+  let tbl := (if tbl_present then Some a_table else None) : option (wlist selt) in
+  let '(h, tbl', st) := fill_header_pid false (heap_tbl fails) tbl already in
+  clean h /\ all_live h [1] = true /\
+  match st with
+  | ERR => leaked h [1] = [] /\ tbl' = tbl
+  | OK => match tbl' with Some l => leaked h (list_blocks selt_blocks l) = [] | None => False end
+  end.
+Proof. intros fails [|] [|]; oracle fails 4%nat. Qed.
+
 (* ---------------------------------------------------------------- `single k` is an oracle: the per-k form *)
 Lemma single_failure_instances : forall k,
   (let '(h, r) := buffer_create (heap0 (single k)) true in clean h /\ (r = None -> leaked h [] = [])) /\
